@@ -13,8 +13,9 @@ EXPLANATION = ("Premises of two bit-vector lemmas and the count-min structure, c
                "index = pos/2, shift = (pos & 1) * 4 and mask 0xF; the constants; halving rewrites every byte of "
                "every row with (b >> 1) & 0x77; increment and estimate visit all rows with position "
                "(hash ^ seed[row]) % total_counters, estimate folding with minimum from u8::MAX; the doorkeeper/"
-               "sketch/reset decision table. Collision behaviour, the lemmas themselves and row sizing "
-               "(next_power_of_two(counters)/2: counters = 1 gives empty rows) are numeric facts not decided here.")
+               "sketch/reset decision table; rows hold modulus/2 bytes (R14.9). Collision behaviour and the lemmas "
+               "themselves are numeric facts not decided here; that the modulus is at least 2 and even for every accepted "
+               "size is decided under C17 (R17.15, R17.16).")
 ASSUMPTIONS = ["Lemma A and Lemma B (two-line paper proofs in DESIGN.md)", "bloomfilter::Bloom set/check/clear behave as documented"]
 
 
